@@ -212,6 +212,53 @@ def ShapeB():
   return [('shapeB_strings', list(want), body, want)]
 
 
+# Shape C (required in every run): long predicate names that share long
+# prefixes - total lengths around the 63-character identifier limit of some
+# engines and around the 100-character rule of NamesAllocator.AllocateTable
+# (no name-based alias from 100 characters on) - two distinct-denoted and one
+# multi-rule predicate read by the same rule (M) and by different rules of
+# the same query (Mdeep).  Their WITH names and from-list aliases must stay
+# distinct (clauses with-dup / alias-dup) in every dialect.
+LONG_LENGTHS = (62, 64, 67, 70, 97, 100, 104)
+
+
+def ShapeC():
+  stem = 'Pred' + 'abcdefghij' * 12
+  out = []
+  for n in LONG_LENGTHS:
+    a, b, c = [stem[:n - 1] + x for x in 'ABC']
+    body = ('U(1, "a");\nU(2, "b");\nU(3, "a");\n'
+            '%s(s, n? += x) distinct :- U(x, s);\n'
+            '%s(s) distinct :- U(x, s), x > 1;\n'
+            '%s(x) :- U(x, s);\n%s(x + 10) :- U(x, s), x > 1;\n'
+            'M(s, n, y) :- %s(s, n:), %s(s), %s(y);\n'
+            'W2(s) distinct :- %s(s);\nW3(y) distinct :- %s(y);\n'
+            'Mdeep(s, n, y) :- %s(s, n:), W2(s), W3(y);\n' % (
+                a, b, c, c, a, b, c, b, c, a))
+    out.append(('shapeC_long_names_%d' % n, ['M', 'Mdeep'], body, {}))
+  return out
+
+
+# Shape D (required in every run): record literals with null / untyped fields,
+# flat and nested, as a fact argument, in a comparison, in a list.  Every
+# dialect must answer with SQL or with one of the four diagnostics.
+def ShapeD():
+  body = ('U(1, "a");\nU(2, "b");\n'
+          'Fact({a: 1, b: null});\nFact({a: 2, b: null});\n'
+          'FactNested({a: {c: null, d: 1}, b: "u"});\n'
+          'FactNested({a: {c: null, d: 2}, b: "v"});\n'
+          'Flat(x, r) :- U(x, s), r == {a: x, b: null};\n'
+          'Nested(x, r) :- U(x, s), r == {a: {c: null, d: s}, b: x};\n'
+          'Cmp(x) :- U(x, s), {a: x, b: null} == {a: 1, b: null};\n'
+          'InList(x, l) :- U(x, s), l == [{a: x, b: null}];\n'
+          'Field(x, v) :- U(x, s), r == {a: x, b: null}, v == r.b;\n'
+          'ReadFact(r.a) :- Fact(r);\n'
+          'HeadOnly(x, {a: null, b: {c: null}}) :- U(x, s);\n')
+  return [('shapeD_null_records',
+           ['Fact', 'FactNested', 'Flat', 'Nested', 'Cmp', 'InList', 'Field',
+            'ReadFact', 'HeadOnly'], body, {})]
+
+
 # Converse demonstration inside every run: hand-made scripts with one defect
 # each; SqlScopeTrace must reject them with the named clause (and accept the
 # repaired twin), otherwise the run is a machinery failure.
@@ -244,6 +291,14 @@ SELFTEST = [
     ('sqlite', ['SELECT JSON_GROUP_ARRAY(None) AS x'], 'placeholder'),
     ('sqlite', ['SELECT x %s y'], 'placeholder'),
     ('sqlite', ['/* nil */ SELECT 1'], 'placeholder'),
+    # duplicates in one WITH list / one from-list
+    ('sqlite', ['WITH Xa AS (SELECT 1 AS x), U AS (SELECT 2 AS x), Xa AS '
+                '(SELECT 3 AS x) SELECT Xa.x FROM Xa AS Xa'], 'with-dup'),
+    ('sqlite', ['SELECT P.x, P.y FROM t_0_A AS P, t_1_B AS P'], 'with-order'),
+    ('sqlite', ['WITH t_0_A AS (SELECT 1 AS x), t_1_B AS (SELECT 2 AS y) '
+                'SELECT P.x, P.y FROM t_0_A AS P, t_1_B AS P'], 'alias-dup'),
+    ('trino', ['SELECT x_1, x_2 FROM UNNEST(ARRAY[1]) as pushkin(x_1), '
+               'UNNEST(ARRAY[2]) as pushkin(x_2)'], ''),
     # shape A: every statement is scoped on its own
     ('sqlite', ['CREATE TABLE logica_test.G AS WITH t_1_U AS (SELECT 1 AS x), '
                 't_0_T AS (SELECT U.x FROM t_1_U AS U) SELECT T.x FROM t_0_T '
@@ -305,7 +360,7 @@ def GeneratedItems(n):
   items = []
   feats = collections.Counter()
   for name, preds, body, want in ([f + ({},) for f in FIXED] + ShapeA() +
-                                  ShapeB()):
+                                  ShapeB() + ShapeC() + ShapeD()):
     for e in ENGINES:
       items.append({'id': 'f/%s/%s' % (name, e), 'engine': e, 'preds': preds,
                     'text': '@Engine("%s");\n%s' % (e, body), 'want': want,
@@ -417,6 +472,8 @@ class Outcomes:
     self.harness_errors = []
     self.shape_a = collections.defaultdict(set)   # engine -> {(program, pred)}
     self.shape_b = collections.defaultdict(set)   # engine -> {kind of string}
+    self.shape_c = collections.defaultdict(dict)  # engine -> {program: names}
+    self.shape_d = collections.defaultdict(dict)  # engine -> {pred: outcome}
     self.executed = set()     # keys of scripts SQLite executed
     self.executed_by = collections.Counter()   # key -> executed scripts
     self.n_executed = 0
@@ -444,6 +501,13 @@ class Outcomes:
       for p, rec in res['preds'].items():
         self.evaluations += 1
         self.per[e][rec['status']] += 1
+        fam = it.get('meta', {}).get('name', '')
+        if fam.startswith('shapeD'):
+          self.shape_d[e][p] = (rec['status'] if rec['status'] == 'ok' else
+                                '%s:%s' % (rec['status'], rec.get('cls')))
+        if fam.startswith('shapeC') and rec['status'] == 'ok':
+          self.shape_c[e][fam] = min(rec.get('long_names', 0),
+                                     self.shape_c[e].get(fam, 9))
         if rec['status'] == 'internal':
           self.problems.append((
               {'kind': 'internal', 'engine': e, 'stage': 'compile',
@@ -539,6 +603,8 @@ class Outcomes:
                     for e in ENGINES},
         'shape_b': {e: sorted(self.shape_b[e]) for e in ENGINES},
         'harness_errors': self.harness_errors,
+        'shape_c': {e: dict(self.shape_c[e]) for e in ENGINES},
+        'shape_d': {e: dict(self.shape_d[e]) for e in ENGINES},
     }
     return stats, problems, calib_bad, errors
 
@@ -582,6 +648,8 @@ def Run(tier):
 
   items, feats = GeneratedItems(cfg['programs'])
   bitems, bplan = c09builtins.Items(cfg['bulk'])
+  if os.environ.get('C09_BUILTINS') == '0':   # development / sensitivity runs
+    bitems = []
   _Log('%d generated/fixed items, %d built-in items' % (len(items),
                                                         len(bitems)))
   all_items = bitems + items
@@ -652,6 +720,20 @@ def Run(tier):
     if lack:
       machinery.append('shape B (string constants %s) not compiled to SQL '
                        'for %s' % (lack, e))
+  for e in ENGINES:
+    short = [f[0] for f in ShapeC()
+             if int(f[0].split('_')[-1]) < 100 and
+             stats['shape_c'][e].get(f[0], 0) < 3]
+    missing = [f[0] for f in ShapeC() if f[0] not in stats['shape_c'][e]]
+    if short or missing:
+      machinery.append(
+          'shape C (three long predicate names sharing a prefix, as WITH '
+          'names / aliases of one query) not produced for %s: %s' % (
+              e, short + missing))
+    lack = [p for p in ShapeD()[0][1] if p not in stats['shape_d'][e]]
+    if lack:
+      machinery.append('shape D (records with null fields) not compiled for '
+                       '%s: %s' % (e, lack))
   if stats['calibration_executed'] < max(cfg['programs'], 1):
     machinery.append('calibration vacuous: SQLite executed only %d scripts' %
                      stats['calibration_executed'])
@@ -694,7 +776,10 @@ def Run(tier):
       'builtins': bstats,
       'generator_features': dict(feats),
       'programs': cfg['programs'],
-      'fixed_programs': [f[0] for f in FIXED + ShapeA() + ShapeB()],
+      'fixed_programs': [f[0] for f in FIXED + ShapeA() + ShapeB() + ShapeC() +
+                         ShapeD()],
+      'required_shape_C_long_names': stats['shape_c'],
+      'required_shape_D_null_records': stats['shape_d'],
       'required_shape_A_scripts': stats['shape_a'],
       'required_shape_B_string_kinds': stats['shape_b'],
       'model_check_SqlScope': mc_stats,
